@@ -221,6 +221,9 @@ impl BitFont {
     //const PSF2_STARTSEQ: u8 = 0xFE;
 
     fn load_psf2(font_name: impl Into<String>, data: &[u8]) -> EngineResult<Self> {
+        if data.len() < 32 {
+            return Err(FontError::LengthMismatch(data.len(), 32).into());
+        }
         let version = u32::from_le_bytes(data[4..8].try_into().unwrap());
         if version > BitFont::PSF2_MAXVERSION {
             return Err(FontError::UnsupportedVersion(version).into());
@@ -229,8 +232,9 @@ impl BitFont {
         // let flags = u32::from_le_bytes(data[12..16].try_into().unwrap());
         let length = u32::from_le_bytes(data[16..20].try_into().unwrap()) as i32;
         let charsize = u32::from_le_bytes(data[20..24].try_into().unwrap()) as i32;
-        if length * charsize + headersize as i32 != data.len() as i32 {
-            return Err(FontError::LengthMismatch(data.len(), (length * charsize) as usize + headersize).into());
+        let expected_len = (length as u32 as usize).checked_mul(charsize as u32 as usize).and_then(|l| l.checked_add(headersize));
+        if expected_len != Some(data.len()) {
+            return Err(FontError::LengthMismatch(data.len(), expected_len.unwrap_or(usize::MAX)).into());
         }
         let height = u32::from_le_bytes(data[24..28].try_into().unwrap()) as usize;
         let width = u32::from_le_bytes(data[28..32].try_into().unwrap()) as usize;
@@ -287,6 +291,9 @@ impl BitFont {
     ///
     /// This function will return an error if .
     pub fn from_bytes(font_name: impl Into<String>, data: &[u8]) -> EngineResult<Self> {
+        if data.len() < 4 {
+            return Err(FontError::UnknownFontFormat(data.len()).into());
+        }
         let magic16 = u16::from_le_bytes(data[0..2].try_into().unwrap());
         if magic16 == BitFont::PSF1_MAGIC {
             return Ok(BitFont::load_psf1(font_name, data));
